@@ -73,19 +73,19 @@ def wf(c):
     iro = c.h('__iro__')[c.a.provided]
     a, b = z3.Ints('wf_a wf_b')
     return [('mapping-exists', z3.And(c.h('_extendors')[s] != NONE, c.h('$alloc')[c.h('_extendors')[s]])),
-            ('values-are-allocated-lists', z3.ForAll([k], z3.Implies(m[k] != ABSENT, stored_ok(c, m[k])), patterns=[m[k]])),
-            ('resolution-order-lists-each-interface-once', z3.ForAll([a, b], z3.Implies(z3.And(0 <= a, a < b, b < L(iro)), iro[a] != iro[b]),
+            ('values-are-allocated-lists', ForAllP([k], z3.Implies(m[k] != ABSENT, stored_ok(c, m[k])), patterns=[m[k]])),
+            ('resolution-order-lists-each-interface-once', ForAllP([a, b], z3.Implies(z3.And(0 <= a, a < b, b < L(iro)), iro[a] != iro[b]),
                                                                       patterns=[z3.MultiPattern(iro[a], iro[b])]))]
 
 
 def old_lists_untouched(c):
     o = z3.Const('ol_o', Obj)
-    return z3.ForAll([o], z3.Implies(c.h0('$alloc')[o], c.h('$list')[o] == c.h0('$list')[o]), patterns=[c.h('$list')[o]])
+    return ForAllP([o], z3.Implies(c.h0('$alloc')[o], c.h('$list')[o] == c.h0('$list')[o]), patterns=[c.h('$list')[o]])
 
 
 def only_mapping_changes(c):
     o = z3.Const('om_o', Obj)
-    return z3.ForAll([o], z3.Implies(o != c.h0('_extendors')[c.a.self], c.h('$dict')[o] == c.h0('$dict')[o]), patterns=[c.h('$dict')[o]])
+    return ForAllP([o], z3.Implies(o != c.h0('_extendors')[c.a.self], c.h('$dict')[o] == c.h0('$dict')[o]), patterns=[c.h('$dict')[o]])
 
 
 def keys_done(c, upto, fn):
@@ -95,14 +95,14 @@ def keys_done(c, upto, fn):
     k = z3.Const('kd_k', Obj)
     m0 = c.h0('$dict')[c.h0('_extendors')[c.a.self]]
     m1 = c.h('$dict')[c.h('_extendors')[c.a.self]]
-    return [('rebuilt-for-the-interfaces-visited', z3.ForAll([j], z3.Implies(z3.And(0 <= j, j < upto), z3.And(
+    return [('rebuilt-for-the-interfaces-visited', ForAllP([j], z3.Implies(z3.And(0 <= j, j < upto), z3.And(
         m1[iro[j]] != ABSENT, SeqEq(ext(c, iro[j]), fn(ext(c, iro[j], False))))), patterns=[iro[j]])),
-        ('other-keys-untouched', z3.ForAll([k], z3.Implies(
+        ('other-keys-untouched', ForAllP([k], z3.Implies(
             z3.Not(z3.Exists([j], z3.And(0 <= j, j < upto, iro[j] == k))), m1[k] == m0[k]), patterns=[m1[k]])),
-        ('allocation-only-grows', z3.ForAll([k], z3.Implies(c.h0('$alloc')[k], c.h('$alloc')[k]), patterns=[c.h('$alloc')[k]])),
+        ('allocation-only-grows', ForAllP([k], z3.Implies(c.h0('$alloc')[k], c.h('$alloc')[k]), patterns=[c.h('$alloc')[k]])),
         ('lists-that-existed-are-not-mutated', old_lists_untouched(c)),
         ('only-this-mapping-changes', only_mapping_changes(c)),
-        ('stored-values-are-allocated-lists', z3.ForAll([k], z3.Implies(m1[k] != ABSENT, stored_ok(c, m1[k])), patterns=[m1[k]])),
+        ('stored-values-are-allocated-lists', ForAllP([k], z3.Implies(m1[k] != ABSENT, stored_ok(c, m1[k])), patterns=[m1[k]])),
         ('attributes-stable', z3.And(c.h('_extendors') == c.h0('_extendors'), c.h('__iro__') == c.h0('__iro__')))]
 
 
